@@ -22,11 +22,32 @@ run_custom_private(tier, seed)
     custom operations: the instance reports exactly one marker issue per object of the registered class and
     nothing else; a second custom instance created meanwhile reports only its own rule; a fresh reset=True
     instance reports nothing; default validations never contain a marker issue.
+    The alphabet also contains 'custom-library-rules': every rule function the library itself exports
+    (discovered by introspection, see run_stateless) registered as the added rule of a reset=True instance for
+    every class of object; the run is repeated on the same instance and on a fresh one and must report the same
+    collection, also when the operation comes back later in the history and the document is still unchanged.
+
+run_stateless(tier, seed)
+    "validating the same unchanged objects again reports the same collection" for EVERY public callable of
+    odml.validation that accepts an odML object (found by introspection: defined in the module, public name,
+    callable with one positional argument, returns a collection of issues or a Validation for at least one of a
+    Document / Section / Property), used in every way the public API offers:
+    direct:   called twice on every object of the validated scope (second pass after all first calls);
+    handler:  registered as the added rule of a Validation(reset=True) for 'odML', 'section', 'property' and for all
+              classes it returned for together: run, run again on the same instance, run on a fresh instance;
+    later:    the direct calls and a fresh-instance run are repeated after the objects of two OTHER documents went
+              through the same rules;
+    other process: the saved document is loaded here and in a fresh interpreter (another hash seed) and every
+              (rule, class) run is compared by object path;
+    frame:    the object graph (harness.snap) and the default registry are the same after all of that.
+    Which of "direct first" and "handler first" is used alternates per document, so that the very first contact of
+    a rule with an object happens through both entry points.
 """
 from __future__ import annotations
 
 import collections
 import hashlib
+import inspect
 import itertools
 import json
 import os
@@ -110,11 +131,11 @@ def _child_main():
     real.write(json.dumps(out))
 
 
-def other_process(files, hashseed):
+def other_process(files, hashseed, entry='_child_main'):
     env = dict(os.environ)
     env['ODML_REPO'] = h.REPO
     env['PYTHONHASHSEED'] = str(hashseed)
-    res = subprocess.run([PYTHON, '-c', 'from rcc import b_C19; b_C19._child_main()'], cwd=VERIF, env=env,
+    res = subprocess.run([PYTHON, '-c', 'from rcc import b_C19; b_C19.%s()' % entry], cwd=VERIF, env=env,
                          input=json.dumps(files).encode(), stdout=subprocess.PIPE, stderr=subprocess.PIPE,
                          timeout=900)
     if res.returncode != 0:
@@ -329,6 +350,120 @@ def _observe_one(col, name, cat, params, root, how):
 
 
 # ---------------------------------------------------------------------------------------------
+# the library's own callables that take an odML object (shared by run_custom_private and run_stateless)
+# ---------------------------------------------------------------------------------------------
+
+CATEGORIES = ('odML', 'section', 'property')
+
+
+def category_of(o):
+    return 'odML' if g.is_doc(o) else ('section' if g.is_sec(o) else 'property')
+
+
+def _hashable(x):
+    try:
+        hash(x)
+        return x
+    except TypeError:
+        return repr(x)
+
+
+def issue_ms(errors):
+    """multiset of (validation_id, rank, msg, id(obj))"""
+    return collections.Counter((kind_of(e), _hashable(e.rank), _hashable(e.msg), id(e.obj)) for e in errors)
+
+
+def exc_key(exc):
+    return type(exc).__name__, str(exc)[:200]
+
+
+def apply_direct(fn, obj):
+    """('ret', multiset, is_rule) | ('exc', (type, text)) | ('n/a',): fn(obj) read as a collection of issues.
+    is_rule: the callable handed back an iterable of issues (usable as a handler), not a Validation."""
+    def go():
+        r = fn(obj)
+        if isinstance(r, Validation):
+            return False, list(r.errors)
+        return True, list(r)
+    r = h.call(go)
+    if r[0] == 'exc':
+        return 'exc', exc_key(r[1])
+    is_rule, items = r[1]
+    if not all(isinstance(e, V.ValidationError) for e in items):
+        return ('n/a',)
+    return 'ret', issue_ms(items), is_rule
+
+
+def _probe_objects():
+    with h.quiet():
+        doc = odml.Document(author='probe')
+        sec = odml.Section('probe', 'probe', parent=doc)
+        odml.Section('probesub', 'probe', parent=sec)
+        prop = odml.Property('probe', values=['v'], parent=sec)
+    return doc, [doc, sec, prop]
+
+
+_DISCOVERED = []
+
+
+def discover_callables():
+    """[(name, callable, is_rule)]: everything public that odml.validation itself defines, that can be called with one
+    positional argument and that answers with a collection of issues for at least one kind of odML object.
+    Nothing is listed by hand: a rule added to the library tomorrow is picked up."""
+    if _DISCOVERED:
+        return _DISCOVERED
+    keep, probes = _probe_objects()
+    for nm in sorted(vars(V)):
+        fn = getattr(V, nm)
+        if nm.startswith('_') or not callable(fn) or getattr(fn, '__module__', None) != V.__name__:
+            continue
+        try:
+            inspect.signature(fn).bind(None)
+        except (TypeError, ValueError):
+            continue
+        answers = [apply_direct(fn, o) for o in probes]
+        good = [a for a in answers if a[0] == 'ret']
+        if good:
+            _DISCOVERED.append((nm, fn, all(a[2] for a in good)))
+    del keep
+    return _DISCOVERED
+
+
+def custom_run(root, fn, cats, val=None):
+    """(instance, outcome) of a reset=True Validation of root with fn as the added rule for the classes `cats`;
+    outcome = ('ret', multiset) | ('exc', (type, text))"""
+    if val is None:
+        val = Validation(root, validate=False, reset=True)
+        for c in cats:
+            val.register_custom_handler(c, fn)
+    r = h.call(val.run_validation)
+    if r[0] == 'exc':
+        return val, ('exc', exc_key(r[1]))
+    return val, ('ret', issue_ms(val.errors))
+
+
+def outcome_diff(a, b):
+    if a[0] == 'ret' and b[0] == 'ret':
+        x, y = a[1], b[1]
+        return 'only in first: %r; only in second: %r' % ([k[:3] for k in (x - y).elements()][:3],
+                                                          [k[:3] for k in (y - x).elements()][:3])
+    return 'first: %r; second: %r' % (a[:2] if a[0] != 'ret' else 'returned %d issues' % sum(a[1].values()),
+                                      b[:2] if b[0] != 'ret' else 'returned %d issues' % sum(b[1].values()))
+
+
+def outcome_feature(a, b):
+    if a[0] == 'ret' and b[0] == 'ret':
+        return 'other issues'       # which kinds differ depends on the input, not on the defect: the rule name classifies
+    if a[0] != b[0]:
+        return 'raises-once-returns-once'
+    return 'raises-differently'
+
+
+def same_outcome(a, b):
+    return a[:2] == b[:2]
+
+
+# ---------------------------------------------------------------------------------------------
 # run_custom_private
 # ---------------------------------------------------------------------------------------------
 
@@ -382,6 +517,7 @@ class Ctx(object):
         self.rnd = rnd
         self.k = 0
         self.live = []      # custom instances created so far in this history
+        self.memo = {}      # (library rule, class) -> (snapshot of the document, outcome) of its last custom run
 
 
 def count_scope(root):
@@ -458,6 +594,25 @@ def op_custom_library_rule(cx):
     val.register_custom_handler('section', V.section_repository_present)
     r = h.call(val.run_validation)
     return [('custom-lib', (val, r))]
+
+
+def op_custom_library_rules(cx):
+    """every rule function the library exports, as the added rule of a reset=True instance, for every class of
+    object: run, run again, run on a fresh instance; remembered for the next time the operation comes up"""
+    out = []
+    now = h.snap(cx.doc)
+    for nm, fn, is_rule in discover_callables():
+        if not is_rule:
+            continue
+        for cat in CATEGORIES:
+            val, o1 = custom_run(cx.doc, fn, [cat])
+            _, o2 = custom_run(cx.doc, fn, [cat], val)
+            _, o3 = custom_run(cx.doc, fn, [cat])
+            before = cx.memo.get((nm, cat))
+            earlier = before[1] if before is not None and before[0] == now else None
+            cx.memo[(nm, cat)] = (now, o1)
+            out.append(('library-rule', (nm, cat, o1, o2, o3, earlier, val)))
+    return out
 
 
 def op_rerun_live(cx):
@@ -537,7 +692,8 @@ OPS = collections.OrderedDict([
     ('custom-section-rule', op_custom_section), ('custom-property-rule', op_custom_property),
     ('custom-document-rule', op_custom_document), ('custom-all-via-report', op_custom_all_report),
     ('custom-unknown-key', op_custom_unknown_key), ('custom-on-section-root', op_custom_on_section),
-    ('custom-library-rule', op_custom_library_rule), ('rerun-live-custom', op_rerun_live),
+    ('custom-library-rule', op_custom_library_rule), ('custom-library-rules', op_custom_library_rules),
+    ('rerun-live-custom', op_rerun_live),
     ('create-objects', op_create), ('set-cardinalities', op_cardinality),
     ('save-load-xml', op_save_load_xml), ('save-load-json', op_save_load_json),
     ('save-load-yaml', op_save_load_yaml), ('save-load-rdf', op_save_load_rdf),
@@ -551,7 +707,8 @@ def run_custom_private(tier, seed):
         rule='one case = one history: a sequence of operations from an alphabet of %d (default validations of a '
              'document / Section / Property, Document.validate, custom validations with a fresh marker rule for '
              'section / property / odML / all three via report() / an unknown key / rooted at a Section / the library\'s '
-             'on-demand rule, re-running live custom instances, creating objects with cardinalities, setting '
+             'on-demand rule / every rule function the library exports for every class (run, re-run, fresh instance, '
+             'compared with the previous occurrence while the document is unchanged), re-running live custom instances, creating objects with cardinalities, setting '
              'cardinalities through methods and setters, save+load in XML, JSON, YAML, RDF) applied to one of 3 base '
              'documents; all sequences up to length 2 (quick) / 3 (thorough), then seeded random sequences of length '
              '4..10; after every operation the registry and the marker contract are checked; distinct = (base document, '
@@ -626,6 +783,21 @@ def run_custom_private(tier, seed):
                                      cls={'clause': 'custom-rule-this-instance-only', 'feature': 'fresh reset instance not empty'},
                                      witness=wit, detail='%s: a fresh reset=True instance reports %r' % (where, fresh.errors[:3]))
                         _check_registry(col, name, reg0, wit, opname, where + ' + fresh instance')
+                    elif kind == 'library-rule':
+                        nm, cat, o1, o2, o3, earlier, val = payload
+                        for label, other in (('re-run on the same instance', o2), ('fresh instance', o3),
+                                             ('the same operation earlier in the history, document unchanged since', earlier)):
+                            if other is not None and not same_outcome(o1, other):
+                                col.fail(check=name + '/library-rule-as-custom-rule-repeatable',
+                                         cls={'clause': 'library-rule-as-custom-rule-repeatable',
+                                              'feature': 'rule %s for %s: %s' % (nm, cat, outcome_feature(o1, other))},
+                                         witness=wit, detail='%s: %s registered for %r on a reset=True instance: this run vs %s: %s'
+                                                             % (where, nm, cat, label, outcome_diff(o1, other)))
+                                break
+                        if markers(val.errors):
+                            col.fail(check=name + '/custom-rule-this-instance-only',
+                                     cls={'clause': 'custom-rule-this-instance-only', 'feature': 'rule of another instance applied'},
+                                     witness=wit, detail='%s: instance with library rule %s reports %r' % (where, nm, dict(markers(val.errors))))
             # end of history: a default validation is still marker free and the registry intact
             r = h.call(Validation, doc)
             if r[0] == 'ret' and markers(r[1].errors):
@@ -661,3 +833,313 @@ def _check_registry(col, name, reg0, wit, opname, where):
         feature, detail = 'handler functions replaced by ' + opname, '%s: same names, other function objects' % where
     col.fail(check=name + '/default-registry-unchanged', cls={'clause': 'default-registry-unchanged', 'feature': feature},
              witness=wit, detail=detail)
+
+
+# ---------------------------------------------------------------------------------------------
+# run_stateless
+# ---------------------------------------------------------------------------------------------
+
+def gen_standalone_trees():
+    """Section trees that were never part of a Document (the default rules never look at their ids), nested
+    one to three levels, with and without Properties on the root"""
+    for depth in (1, 2, 3):
+        for root_props in (0, 2):
+            for width in (1, 2):
+                with h.quiet():
+                    root = odml.Section('root', 'setup')
+                    for k in range(root_props):
+                        odml.Property('rp%d' % k, values=[k], parent=root)
+                    level = [root]
+                    for d in range(depth):
+                        nxt = []
+                        for par in level:
+                            for w in range(width):
+                                s = odml.Section('s%d%d' % (d, w), 'part', parent=par)
+                                odml.Property('p1', values=[1, 2], parent=s)
+                                odml.Property('p2', values=['x'], parent=s)
+                                nxt.append(s)
+                        level = nxt[:2]
+                yield (depth, root_props, width), root
+
+
+def stateless_stream(tier, seed):
+    """(generator, parameters, container, [(root, how)])"""
+    for params, root in gen_standalone_trees():
+        secs, _ = h.walk(root)
+        yield 'standalone-tree', params, root, [(root, 'Validation')] + [(s, 'Validation') for s in secs[:2]]
+    k = 0
+    for cat, params, doc in doc_stream(tier, seed + 3):
+        k += 1
+        if tier == 'quick' and cat in ('cardinality', 'dependency', 'required', 'mixed', 'gen_docs') and k % 3:
+            continue
+        if tier != 'quick' and cat in ('cardinality', 'dependency') and k % 2:
+            continue
+        yield cat, params, doc, g.targets_of(doc)
+
+
+def traversal_scope(root):
+    """the objects a validation of root is about: root and everything below it"""
+    if g.is_prop(root):
+        return [root]
+    secs, props = h.walk(root)
+    return [root] + secs + props
+
+
+def has_repository(container):
+    secs, _ = h.walk(container) if not g.is_prop(container) else ([], [])
+    return any(getattr(o, '_repository', None) is not None for o in [container] + secs)
+
+
+def cat_sets(scope):
+    present = [c for c in CATEGORIES if any(category_of(o) == c for o in scope)]
+    return present
+
+
+class _Stateless(object):
+    """the evaluation of all discovered callables on one root"""
+
+    def __init__(self, col, name, gen, params, container, root, how, direct_first):
+        self.col, self.name = col, name
+        self.gen, self.params, self.container, self.root = gen, params, container, root
+        self.direct_first = direct_first
+        self.scope = traversal_scope(root)
+        self.rk = 'doc' if g.is_doc(root) else ('sec' if g.is_sec(root) else 'prop')
+        self.attached = getattr(root, '_parent', None) is not None
+        self.label = '%s %r' % (gen, params)
+        self.wit = {'case': self.label, 'validated': g.obj_label(root), 'via': how,
+                    'first contact': 'direct call' if direct_first else 'custom handler',
+                    'graph': g.describe(container)}
+        self.before = h.snap(container)
+        self.direct = {}        # rule name -> [outcome per scope object]
+        self.custom = {}        # (rule name, classes) -> outcome of the first run
+
+    def fail(self, clause, feature, detail):
+        self.col.fail(check='%s/%s' % (self.name, clause), cls={'clause': clause, 'feature': feature},
+                      witness=self.wit, detail=detail)
+
+    # -- direct calls ---------------------------------------------------------------------------
+    def direct_phase(self, nm, fn):
+        first = [apply_direct(fn, o) for o in self.scope]
+        second = [apply_direct(fn, o) for o in self.scope]
+        self.direct[nm] = first
+        self.compare_direct(nm, first, second, 'called twice on the unchanged object')
+
+    def compare_direct(self, nm, first, second, what):
+        for o, a, b in zip(self.scope, first, second):
+            if a[0] == 'n/a' or b[0] == 'n/a':
+                if a[0] != b[0]:
+                    self.fail('rule-call-repeatable', 'rule %s on %s: issues-once-something-else-once' % (nm, category_of(o)),
+                              '%s(%s) %s: %r vs %r' % (nm, g.obj_label(o), what, a[0], b[0]))
+                    return
+                continue
+            if not same_outcome(a, b):
+                self.fail('rule-call-repeatable', 'rule %s on %s: %s' % (nm, category_of(o), outcome_feature(a, b)),
+                          '%s(%s) %s: %s' % (nm, g.obj_label(o), what, outcome_diff(a, b)))
+                return
+
+    # -- as the added rule of a reset=True instance ----------------------------------------------
+    def handler_phase(self, nm, fn):
+        present = cat_sets(self.scope)
+        returned = []
+        for cats in [(c,) for c in present] + ['<all that returned>']:
+            if cats == '<all that returned>':
+                if len(returned) < 2:
+                    continue
+                cats = tuple(returned)
+            val, o1 = custom_run(self.root, fn, cats)
+            _, o2 = custom_run(self.root, fn, cats, val)
+            _, o3 = custom_run(self.root, fn, cats)
+            self.custom[(nm, cats)] = o1
+            if o1[0] == 'ret' and len(cats) == 1:
+                returned.append(cats[0])
+            for label, other in (('run again on the same instance', o2), ('run on a fresh instance', o3)):
+                if not same_outcome(o1, other):
+                    self.fail('rule-as-handler-repeatable',
+                              'rule %s for %s: %s' % (nm, '+'.join(cats), outcome_feature(o1, other)),
+                              '%s registered for %r on Validation(%s, validate=False, reset=True): first run vs %s: %s'
+                              % (nm, list(cats), g.obj_label(self.root), label, outcome_diff(o1, other)))
+                    break
+
+    def evaluate(self, rules):
+        for nm, fn, is_rule in rules:
+            if self.direct_first or not is_rule:
+                self.direct_phase(nm, fn)
+                if is_rule:
+                    self.handler_phase(nm, fn)
+            else:
+                self.handler_phase(nm, fn)
+                self.direct_phase(nm, fn)
+            kinds = frozenset(k[0] for o in self.direct[nm] if o[0] == 'ret' for k in o[1]) | \
+                frozenset(k[0] for o in self.custom.values() if o[0] == 'ret' for k in o[1])
+            fits = tuple(sorted(set(category_of(o) for o, a in zip(self.scope, self.direct[nm]) if a[0] == 'ret')))
+            if not fits:
+                continue        # the callable is not made for anything in this scope (it raised, twice the same): not a case
+            self.col.case(cls_key=(self.gen, self.params, self.rk, self.attached, nm, fits, kinds, self.direct_first),
+                          sample='%s: %s on %s (%s first)' % (self.label, nm, g.obj_label(self.root),
+                                                             'direct' if self.direct_first else 'handler'))
+        self.frame(rules)
+
+    # -- later, after other documents went through the same rules -----------------------------------
+    def later(self, rules):
+        if h.snap(self.container) != self.before:
+            return          # reported by frame(); not "the same unchanged objects" any more
+        for nm, fn, is_rule in rules:
+            again = [apply_direct(fn, o) for o in self.scope]
+            self.compare_direct(nm, self.direct[nm], again, 'called again after other documents were validated')
+            for (rn, cats), o1 in self.custom.items():
+                if rn != nm:
+                    continue
+                _, o = custom_run(self.root, fn, cats)
+                if not same_outcome(o1, o):
+                    self.fail('rule-as-handler-repeatable',
+                              'rule %s for %s: %s' % (nm, '+'.join(cats), outcome_feature(o1, o)),
+                              '%s registered for %r on Validation(%s, validate=False, reset=True): first run vs a fresh '
+                              'instance after other documents were validated: %s'
+                              % (nm, list(cats), g.obj_label(self.root), outcome_diff(o1, o)))
+        self.frame(rules, 'later ')
+
+    # -- frame -----------------------------------------------------------------------------------------
+    def frame(self, rules, when=''):
+        after = h.snap(self.container)
+        if after == self.before:
+            return
+        first_diff = h.diff(self.before, after)
+        self.before = after
+        culprit = None
+        for nm, fn, is_rule in rules:       # replay to name the rule
+            b = h.snap(self.container)
+            for o in self.scope:
+                apply_direct(fn, o)
+            if is_rule:
+                for c in cat_sets(self.scope):
+                    custom_run(self.root, fn, (c,))
+            if h.snap(self.container) != b:
+                culprit = nm
+                break
+        self.before = h.snap(self.container)
+        self.fail('frame', 'changed by rule %s' % culprit if culprit else 'changed by a rule run (not reproduced on replay)',
+                  '%sdirect calls / custom runs of the library rules changed the object graph: %s' % (when, first_diff))
+
+
+def _rule_runs_by_path(doc, rules):
+    """{rule/class: sorted [path, kind, rank, msg] | ['EXC', type]} for a loaded document"""
+    out = {}
+    for nm, fn, is_rule in rules:
+        if not is_rule:
+            continue
+        for cat in CATEGORIES:
+            val = Validation(doc, validate=False, reset=True)
+            val.register_custom_handler(cat, fn)
+            r = h.call(val.run_validation)
+            out['%s/%s' % (nm, cat)] = ms_path(val.errors) if r[0] == 'ret' else ['EXC', type(r[1]).__name__]
+    return out
+
+
+def _child_rules_main():
+    """stdin: [[file, backend], ...]  stdout: {file: [digest, {rule/class: ...}] | ['EXC', type, text]}"""
+    real = sys.stdout
+    sys.stdout = sys.stderr
+    out = {}
+    rules = discover_callables()
+    for path, backend in json.load(sys.stdin):
+        with h.quiet():
+            try:
+                doc = odml.load(path, backend)
+                out[path] = [digest(doc), _rule_runs_by_path(doc, rules)]
+            except Exception as exc:    # noqa
+                out[path] = ['EXC', type(exc).__name__, str(exc)[:200]]
+    real.write(json.dumps(out))
+
+
+def run_stateless(tier, seed):
+    name = 'C19.stateless'
+    rules = discover_callables()
+    col = g.ClassCapped(
+        name,
+        rule='one case = one callable of odml.validation (discovered by introspection: %d found - %s) evaluated on one '
+             'validated root (the Document, every Section and Property in place, parentless keep_id clones; Section trees '
+             'that never had a Document) of one generated document (same generators as C19.observes): called directly twice '
+             'on every object of the scope, registered as the added rule of a reset=True instance for each class of object '
+             'present and for all classes it returned for (run, run again, fresh instance), everything repeated after two '
+             'other documents went through all rules, snapshot of the object graph and the default registry compared; '
+             'plus one case per (saved document, rule) for the comparison with another process; distinct = (generator, '
+             'parameters, root kind, attached?, callable, classes it returns for, issue kinds, first contact direct/handler)'
+             % (len(rules), ', '.join(nm for nm, _, _ in rules)),
+        exhaustive=False)
+    reg0 = [registry()]
+    work = scratch('stl_%s_%s' % (tier, seed))
+    files = []
+    skipped_repository = 0
+    not_comparable = 0
+    pending = collections.deque()       # evaluations of earlier documents waiting for their 'later' pass
+    try:
+        ndoc = 0
+        for gen, params, container, targets in stateless_stream(tier, seed):
+            if has_repository(container):
+                skipped_repository += 1      # a terminology would be fetched: no network in a check
+                continue
+            ndoc += 1
+            evs = []
+            for root, how in targets:
+                ev = _Stateless(col, name, gen, params, h.roots_of([root])[0], root, how, direct_first=bool(ndoc % 2))
+                ev.evaluate(rules)
+                evs.append(ev)
+                _check_registry(col, name, reg0, ev.wit, 'library rules on ' + ev.rk, 'after all library rules on %s' % g.obj_label(root))
+            pending.append(evs)
+            if len(pending) > 2:
+                for ev in pending.popleft():
+                    ev.later(rules)
+            # another process
+            if g.is_doc(container) and (tier != 'quick' or ndoc % 2 == 0):
+                for backend in (['xml'] if tier == 'quick' else ['xml', 'yaml']):
+                    path = os.path.join(work, 's%05d.%s' % (ndoc, backend))
+                    r = h.call(odml.save, container, path, backend)
+                    if r[0] != 'ret' or not os.path.exists(path):
+                        continue
+                    r = h.call(odml.load, path, backend)
+                    if r[0] != 'ret':
+                        continue
+                    with h.quiet():
+                        here = _rule_runs_by_path(r[1], rules)
+                    files.append((path, backend, '%s %r' % (gen, params), here, g.describe(container), digest(r[1])))
+        while pending:
+            for ev in pending.popleft():
+                ev.later(rules)
+        if files:
+            out = other_process([[f[0], f[1]] for f in files], 3, entry='_child_rules_main')
+            for path, backend, label, here, desc, dig in files:
+                there = out.get(path)
+                if isinstance(there, list) and len(there) == 2 and there[0] != dig:
+                    not_comparable += 1
+                    continue
+                for key in sorted(here):
+                    nm, cat = key.split('/')
+                    kinds = frozenset(x[1] for x in here[key]) if here[key][:1] != ['EXC'] else 'raises'
+                    col.case(cls_key=('other-process', backend, label.split(' ')[0], nm, cat, kinds),
+                             sample='other process: %s as %s rule on %s (%s)' % (nm, cat, label, backend))
+                    wit = {'case': label, 'format': backend, 'rule': nm, 'registered for': cat, 'graph': desc}
+                    if there is None or (there and there[0] == 'EXC'):
+                        col.fail(check=name + '/other-process-same-issues',
+                                 cls={'clause': 'other-process-same-issues', 'feature': 'load-raises-only-there'},
+                                 witness=wit, detail='other process: %r, here the file was loaded' % (there,))
+                        break
+                    t = there[1].get(key)
+                    t = [list(x) if isinstance(x, list) else x for x in t] if isinstance(t, list) else t
+                    if t != here[key]:
+                        if here[key][:1] == ['EXC'] or (isinstance(t, list) and t[:1] == ['EXC']):
+                            feature = 'rule %s for %s: raises in one process only' % (nm, cat)
+                        else:
+                            feature = 'rule %s for %s: other issues' % (nm, cat)
+                        col.fail(check=name + '/other-process-same-issues',
+                                 cls={'clause': 'other-process-same-issues', 'feature': feature},
+                                 witness=wit,
+                                 detail='%s registered for %r on a reset=True instance, document loaded from the same file: '
+                                        'here %r, in a fresh process (hash seed 3) %r' % (nm, cat, here[key][:3], t[:3] if isinstance(t, list) else t))
+    finally:
+        shutil.rmtree(work, ignore_errors=True)
+    res = col.result()
+    res['callables_discovered'] = [nm for nm, _, _ in rules]
+    res['other_process_files'] = len(files)
+    res['other_process_not_comparable'] = not_comparable
+    res['skipped_repository_set'] = skipped_repository
+    return res
